@@ -65,6 +65,10 @@ CLAIMS = {
   text="Proof of the per-call obligations of the lock: unlockKey deletes the lock entry only when the presented token equals the stored value, answers no-such-lock and changes nothing otherwise, and reports success only after the delete went through the owner-routing delete; leaseKey extends the expiry only for the stored token of a lock that has not expired (judged at a clock reading during the call), answers no-such-lock and changes nothing for a wrong token or an expired lock; Lock builds a conditional write (NX, never XX) whose value is the 16-byte token it returns and whose expiry is the timeout (PX) exactly when a timeout of at least a millisecond is given. Together with C09 (NX refuses a live key and treats an expired one as absent; PX yields expiry = clock + timeout) and C15 (NX and PX both survive forwarding and decoding) this is the sequential core of the lock.",
   note="Mutual exclusion over time, waiting until the deadline (tryLock's timer/select loop is trusted), automatic release 'no earlier than the timeout' as seen by other clients, and the member-local serialisation by locker.Locker are not decided (interleavings are not modelled); dm.Get, dm.Expire, tryLock, locker.Lock/Unlock are trusted; effects are observed through ghost counters (routed_deletes, lease_updates); deleteKeys' footprint is assumed, not proved.",
   ref="DESIGN.md §4 C08, §9"),
+ "C13": dict(
+  text="Proof of the per-call ingredients of routing agreement only: the coordinator a member computes is the first of the member list ordered by birth date, i.e. the oldest member it knows (GetCoordinator; the ordering closure of GetMembers is verified against its contract); a key's partition is hkey mod the partition count both on a member (PartitionIDByHKey / PartitionByHKey, checked against the partition-table invariant established by partitions.New) and in the cluster client (smartPick), and the client talks to the last listed primary owner of that partition (clientByPartID), which is the entry a member's Partition.Owner() returns.",
+  note="Agreement of all members on one table after membership stabilises, validity and balance of the distribution (distributePrimaryCopies/distributeBackups do in-place slice surgery on member lists and call the external consistent-hash library and the network), removal of departed members and convergence are NOT decided: they are properties of a distributed protocol over time, not of single calls; GetMembers (memberlist) and Partition.Owner (atomic.Value) are trusted; verifyRoutingTable's validation of pushed tables is decided under C16.",
+  ref="DESIGN.md §4 C13, §9"),
 }
 
 NA = {
